@@ -40,17 +40,17 @@ func (*Chain) isExpr()  {}
 type HeadKind uint8
 
 const (
-	HField HeadKind = iota
-	HLiteral         // `json`
-	HRaw             // 'raw string'
-	HCurrent         // @
-	HRoot            // $
-	HVar             // $name
-	HCall            // name(args)
-	HParen           // (expr)
-	HMultiList       // [e1, e2]
-	HMultiHash       // {k: e}
-	HImplicit        // chain starts directly with a bracket step or bare *
+	HField     HeadKind = iota
+	HLiteral            // `json`
+	HRaw                // 'raw string'
+	HCurrent            // @
+	HRoot               // $
+	HVar                // $name
+	HCall               // name(args)
+	HParen              // (expr)
+	HMultiList          // [e1, e2]
+	HMultiHash          // {k: e}
+	HImplicit           // chain starts directly with a bracket step or bare *
 )
 
 type Arg struct {
@@ -115,8 +115,8 @@ func Paren(x Expr) *Chain  { return &Chain{Head: Head{Kind: HParen, X: x}} }
 func Call(name string, args ...Arg) *Chain {
 	return &Chain{Head: Head{Kind: HCall, Name: name, Args: args}}
 }
-func A(x Expr) Arg   { return Arg{X: x} }
-func Ref(x Expr) Arg { return Arg{Ref: true, X: x} }
+func A(x Expr) Arg                     { return Arg{X: x} }
+func Ref(x Expr) Arg                   { return Arg{Ref: true, X: x} }
 func Bin(op string, l, r Expr) *Binary { return &Binary{Op: op, L: l, R: r} }
 
 // With returns a copy of the chain with extra steps appended.
